@@ -65,9 +65,10 @@ def draw_types(st):
 
 def gen_val(st, ser):
     if ser == "inc":
-        return [0, 1, -1, 41, 2 ** 40][st.choose(5, "int")]
-    k = st.choose(4, "val")
-    return [7, "s", [1, 2], {"d": 1}][k]
+        # None: v + 1 raises by itself (a serializer failing on its input, not an injected fault)
+        return [0, 1, -1, 41, 2 ** 40, None][st.choose(6, "int")]
+    k = st.choose(5, "val")
+    return [7, "s", [1, 2], {"d": 1}, None][k]
 
 
 def gen_fields(st, declared, p_omit):
@@ -159,7 +160,12 @@ class Run(object):
                 self.failed.append((tname, kind, key))
                 self.rc.count_fault("ser_raise")
                 raise SerFail("serializer %s.%s failed" % (tname, key))
-            return fn(v)
+            try:
+                return fn(v)
+            except Exception:
+                self.failed.append((tname, kind, key))
+                self.rc.count_fault("ser_raise_natural")
+                raise
         return serializer
 
     # -- one emitting API call with its checks ---------------------------------
@@ -209,6 +215,8 @@ class Run(object):
             m = mine[0].msg
             for k, s in declared:
                 want = SER[s](fields[k])
+                if fields[k] is None:
+                    self.rc.probe("declared_field_none")
                 if per_key.get(k, 0) != 1:
                     raise Violation(("not_serialized_once", {"what": what}),
                                     "%s nid=%s: serializer of %r ran %d times" % (what, nid, k, per_key.get(k, 0)))
@@ -350,7 +358,111 @@ class Run(object):
             self.stack.pop()
 
 
+def run_threads(rc, cfg, types, dec):
+    """Two or three threads log typed messages (some failing) through the shared default Logger; every
+    failed message must get exactly one eliot:traceback and one eliot:serialization_failure naming it."""
+    e = rc.eliot
+    st = dec.stream("prog")
+    s = Sched(dec.stream("sched"), p_switch=cfg["p_switch"], gran="line", max_steps=400000,
+              traced=["_output.py", "_traceback.py"], call_budget=None)
+    rc.sched = s
+    rc.clock = seams.begin_run(rc.seed)
+    rc.tap = Tap(rc, deep=False)
+    plan = []
+    nid = 0
+    mts = [t for t in types if t["kind"] == "message"]
+    for a in range(cfg["n_actors"]):
+        ops = []
+        for _ in range(cfg["per_actor"]):
+            nid += 1
+            t = mts[st.choose(len(mts), "mt")]
+            f, om = gen_fields(st, t["fields"], cfg["p_omit"])
+            ops.append((nid, t["name"], f, om))
+        plan.append(ops)
+    run = [None]
+    outcome = {}
+
+    def actor(ops):
+        def fn():
+            r = run[0]
+            for nid, tname, f, om in ops:
+                f = dict(f)
+                f["nid"] = nid
+                n0 = len(r.failed_nids)
+                r.current[_sched_name()] = nid
+                try:
+                    r.types[tname].log(**f)
+                except SimAbort:
+                    raise
+                except BaseException as ex:  # noqa
+                    outcome[nid] = ("raised", ex)
+                    continue
+                declared = [k for k, _s in r.decl[(tname, "msg")]]
+                outcome[nid] = ("failed" if (nid in r.failed_nids or any(k in om for k in declared)) else "ok", None)
+                s.yield_point("between")
+        return fn
+
+    def _sched_name():
+        from esim.sched import current_actor
+        return current_actor().name
+
+    def main():
+        e.add_destinations(rc.tap)
+        r = Run(rc, types, cfg)
+        r.failed_nids = set()
+        r.current = {}
+        orig_mk = r.failed
+
+        class Rec(list):
+            def append(self_, item):
+                r.failed_nids.add(r.current.get(_sched_name()))
+                list.append(self_, item)
+        r.failed = Rec()
+        run[0] = r
+        acts = [s.spawn("T%d" % i, actor(ops)) for i, ops in enumerate(plan)]
+        for a in acts:
+            s.yield_point("join")
+            s.join(a)
+
+    try:
+        try:
+            s.run_main(main)
+        except SimAbort:
+            raise Violation("no_termination", "aborted: %s" % s.abort)
+    finally:
+        seams.end_run()
+    if s.deadlock:
+        raise Violation("deadlock", "%r" % (s.deadlock,))
+    msgs = [r.msg for r in rc.tap.records]
+    n_tb = sum(1 for m in msgs if m.get("message_type") == "eliot:traceback")
+    n_failed = 0
+    for nid, (what, ex) in sorted(outcome.items()):
+        if what == "raised":
+            raise Violation(("raised", {"what": "msg", "exc": type(ex).__name__}), "typed log nid=%s raised %r" % (nid, ex))
+        delivered = sum(1 for m in msgs if m.get("nid") == nid and m.get("message_type", "").startswith("t:"))
+        reports = sum(1 for m in msgs if m.get("message_type") == "eliot:serialization_failure"
+                      and ("'nid'\": '%d'" % nid) in str(m.get("message")))
+        if what == "ok":
+            if delivered != 1 or reports:
+                raise Violation(("delivery", {"what": "msg"}), "nid=%s delivered %d times, %d reports" % (nid, delivered, reports))
+        else:
+            n_failed += 1
+            if delivered:
+                raise Violation(("delivered_despite_failure", {"what": "msg"}), "nid=%s delivered although it failed" % nid)
+            if reports != 1:
+                raise Violation(("failure_reports", {"what": "msg", "concurrent": True}),
+                                "message nid=%s failed to serialize; %d eliot:serialization_failure message(s) name it" % (nid, reports))
+    if n_tb != n_failed:
+        raise Violation(("failure_reports", {"what": "traceback_count", "concurrent": True}),
+                        "%d messages failed to serialize, %d eliot:traceback messages were logged" % (n_failed, n_tb))
+    return {"contained_failures": n_failed, "typed_delivered": len(outcome) - n_failed}
+
+
 def draw_cfg(st):
+    if st.choose(5, "threads") == 4:
+        return {"world": "threads", "n_actors": 2 + st.choose(2, "actors"), "per_actor": 1 + st.choose(5, "per"),
+                "p_ser_raise": [0.3, 0.6][st.choose(2, "p_ser")], "p_omit": [0.0, 0.2][st.choose(2, "p_omit")],
+                "p_switch": [0.1, 0.3][st.choose(2, "p_switch")], "globals": False, "n_ops": 0}
     return {
         "world": "seq",
         "p_ser_raise": [0.0, 0.1, 0.3, 0.05][st.choose(4, "p_ser")],
@@ -364,6 +476,18 @@ def run_one(seed, dec):
     cfg = draw_cfg(dec.stream("cfg"))
     st = dec.stream("prog")
     types = draw_types(st)
+    if cfg["world"] == "threads":
+        rc = RunCtx(ID, seed, dec, cfg)
+        extra = {}
+        try:
+            extra = run_threads(rc, cfg, types, dec)
+        except Violation as v:
+            rc.fail_v(v)
+        prog = {"world": "threads", "actors": [[]], "types": {}}
+        res = base.result(rc, prog, nontrivial=bool(rc.sched.switches), extra_stats=extra,
+                          distinct_extra=(cfg["n_actors"], cfg["per_actor"]))
+        res["sample"] = {"cfg": cfg, "types": types}
+        return res
     ops = gen_ops(st, cfg, types, 0, [cfg["n_ops"], 0])
     rc = RunCtx(ID, seed, dec, cfg)
     s = Sched(dec.stream("sched"), max_steps=10 ** 6, call_budget=100000)
